@@ -92,6 +92,8 @@ type VC struct {
 	closures    map[ssa.Value]*ssa.MakeClosure
 	warnings    []string
 
+	usedGlobals   map[*ssa.Global]bool
+	notes         map[string]bool
 	topFrame      *frame
 	topLocs       []locSpec
 	callsiteHits  map[string]int
@@ -111,11 +113,14 @@ func NewVC(prog *Program, specs *Specs, fn *ssa.Function, con *Contract, mode Mo
 }
 
 func (vc *VC) reset() {
-	vc.tinfo = map[types.Type]*typeInfo{}
-	vc.declared = map[string]bool{}
-	vc.typeDecls = nil
-	vc.stateSort = map[string]Sort{}
-	vc.stateOrder = nil
+	if vc.tinfo == nil {
+		// type representations and state variables persist across the two passes
+		vc.tinfo = map[types.Type]*typeInfo{}
+		vc.declared = map[string]bool{}
+		vc.typeDecls = nil
+		vc.stateSort = map[string]Sort{}
+		vc.stateOrder = nil
+	}
 	vc.lines = nil
 	vc.nfresh = 0
 	vc.strLits = map[string]Term{}
@@ -135,6 +140,8 @@ func (vc *VC) reset() {
 	vc.closures = map[ssa.Value]*ssa.MakeClosure{}
 	vc.warnings = nil
 	vc.topFrame = nil
+	vc.usedGlobals = map[*ssa.Global]bool{}
+	vc.notes = map[string]bool{}
 	vc.topLocs = nil
 	vc.callsiteHits = map[string]int{}
 	vc.closureFrames = map[*ssa.MakeClosure]*frame{}
@@ -321,6 +328,9 @@ func (vc *VC) ghostVar(name string) *ghostInfo {
 }
 
 func (vc *VC) fnPkg() *types.Package {
+	if vc.fn == nil {
+		return nil
+	}
 	if vc.fn.Pkg != nil {
 		return vc.fn.Pkg.Pkg
 	}
@@ -565,6 +575,7 @@ func (vc *VC) newObj(st State, hint string) Term {
 	id := vc.freshConst("a_"+hint, SInt)
 	vc.assume(App(SBool, ">=", id, st.get(vc, "$alloc")))
 	st["$alloc"] = vc.define("alloc", App(SInt, "+", id, IntLit(1)))
+	vc.assume(Eq(App(SInt, "root", App(SRef, "obj", id)), id))
 	return App(SRef, "obj", id)
 }
 
@@ -601,7 +612,13 @@ func (vc *VC) mapLen(st State, m Term, mt *types.Map) Term {
 // ---- obligations ----
 
 func (vc *VC) addObligation(kind, text string, props []string, pos token.Pos, guard, cond Term) *Obligation {
-	base := fmt.Sprintf("%s#%s:%s", FuncName(vc.fn), kind, text)
+	fname := ""
+	if vc.fn != nil {
+		fname = FuncName(vc.fn)
+	} else if vc.con != nil {
+		fname = vc.con.Func
+	}
+	base := fmt.Sprintf("%s#%s:%s", fname, kind, text)
 	n := vc.obNames[base]
 	vc.obNames[base] = n + 1
 	name := base
@@ -611,7 +628,7 @@ func (vc *VC) addObligation(kind, text string, props []string, pos token.Pos, gu
 	if len(props) == 0 && vc.con != nil {
 		props = vc.con.Props
 	}
-	ob := &Obligation{Name: name, Kind: kind, Func: FuncName(vc.fn), Text: text, Props: props, Mode: vc.mode.String(),
+	ob := &Obligation{Name: name, Kind: kind, Func: fname, Text: text, Props: props, Mode: vc.mode.String(),
 		nLines: len(vc.lines), Guard: guard, Cond: cond}
 	if pos.IsValid() {
 		p := vc.prog.SSA.Fset.Position(pos)
